@@ -198,6 +198,28 @@ LUBA_EVENT_DELIVERS = {
 }
 
 
+def _fold_int_class_consts(fn, folder, c):
+    """Copy of fn with loads of `self.X` / `cls.X` written as the integer
+    the class attribute folds to (named constants for header sizes)."""
+    from ..inline import acopy
+
+    class F(ast.NodeTransformer):
+        def visit_Attribute(self, n):
+            self.generic_visit(n)
+            if isinstance(n.ctx, ast.Load) and isinstance(
+                    n.value, ast.Name) and n.value.id in ("self", "cls"):
+                try:
+                    v = folder.class_attr(c, n.attr)
+                except Exception:
+                    v = None
+                if type(v) is int:
+                    return ast.copy_location(ast.Constant(v), n)
+            return n
+    out = F().visit(acopy(fn))
+    ast.fix_missing_locations(out)
+    return out
+
+
 def _check_luba_dispatch(run, world, folder, mod, c):
     """Which LUBA event messages deliver an item: per delivery site, the
     conditions of the paths reaching it are evaluated for every value of the
@@ -215,6 +237,7 @@ def _check_luba_dispatch(run, world, folder, mod, c):
     P = c.qname + "._process_luba_event"
     fn = normalise(c.methods["_process_luba_event"][1], world, SER, c,
                    aliases="params")
+    fn = _fold_int_class_consts(fn, folder, c)
     cfg = CFG(fn, may_raise=explicit_raise_only, name=P)
     param = fn.args.args[1].arg
     defs = astq._defs(fn)
@@ -692,7 +715,12 @@ def _check_proto(run, world, folder, mod, c):
             if isinstance(n, ast.Compare) and len(n.ops) == 1 and isinstance(
                     n.ops[0], (ast.Eq, ast.NotEq)) and unparse(
                         n.left) == arg:
-                v_ = folder.eval(n.comparators[0], {}, SER)
+                try:
+                    v_ = folder.eval(n.comparators[0],
+                                     {"self": ClassRef(c), "cls": ClassRef(c)},
+                                     SER, c)
+                except Exception:
+                    v_ = UNKNOWN
                 if v_ is UNKNOWN and isinstance(
                         n.comparators[0], ast.Call) and unparse(
                             n.comparators[0].func) == "ord" and isinstance(
@@ -727,14 +755,38 @@ def _check_proto(run, world, folder, mod, c):
         except Exception:
             k_ = None
         return k_ is not None and folder.is_enum(k_)
+    # every byte goes through the state machine once: the function does
+    # not feed a byte to itself a second time
+    refeed = [n for n in ast.walk(fn) if isinstance(n, ast.Call) and unparse(
+        n.func) in ("self._process_byte", "self.data_received")]
+    run.ob("R-FSM-CHUNK", P + "._process_byte#each-byte-once", not refeed,
+           "_process_byte hands a byte to the state machine again (`%s`): "
+           "the byte is consumed twice - as the end of one frame and as "
+           "the start of the next - and the frame that really starts next "
+           "is read one byte out of step" % (
+               unparse(refeed[0])[:60] if refeed else ""), where(
+                   mod, refeed[0]) if refeed else where(mod, fn))
+    # _process_byte and the helpers it calls that are not per-type
+    # handlers (a status decoder extracted into a method of its own)
+    scan = [fn]
     for n in ast.walk(fn):
+        if isinstance(n, ast.Call) and isinstance(
+                n.func, ast.Attribute) and isinstance(
+                    n.func.value, ast.Name) and n.func.value.id == "self" \
+                and n.func.attr in c.methods and not \
+                n.func.attr.startswith("_process") and \
+                n.func.attr != "reset":
+            hf = c.methods[n.func.attr][1]
+            if hf not in scan:
+                scan.append(hf)
+    for (sfn_, n) in [(f_, x) for f_ in scan for x in ast.walk(f_)]:
         if isinstance(n, ast.Call) and isinstance(
                 n.func, (ast.Attribute, ast.Name)) and converts_to_enum(n):
             n_enum += 1
             p = getattr(n, "_parent", None)
             guarded = False
             child = n
-            while p is not None and p is not fn:
+            while p is not None and p is not sfn_:
                 if isinstance(p, ast.Try) and any(
                         child is s or any(child is y for y in ast.walk(s))
                         for s in p.body):
@@ -806,18 +858,44 @@ def _check_proto(run, world, folder, mod, c):
             if k_ is None or k_.qname not in ("dali.frame.ForwardFrame",
                                               "dali.frame.Frame"):
                 continue
-            lens = [unparse(x.args[0]) for x in ast.walk(n.args[0])
+            # the width with locals that hold a count written out
+            # (`nb = len(x); bits = 8 * nb` ... `Frame(bits, x)`), the
+            # argument of len() left as it is spelled
+            d_ = astq._defs(mfn)
+
+            class _RS(ast.NodeTransformer):
+                def visit_Call(self, c_):
+                    if unparse(c_.func) == "len":
+                        return c_
+                    return self.generic_visit(c_)
+
+                def visit_Name(self, x):
+                    v_ = d_.get(x.id)
+                    if isinstance(x.ctx, ast.Load) and v_ is not None and \
+                            "len(" in unparse(v_, 300):
+                        from ..inline import acopy as _ac
+                        return self.visit(_ac(v_))
+                    return x
+            from ..inline import acopy as _ac0
+            size_ = _RS().visit(_ac0(n.args[0]))
+            lens = [unparse(x.args[0]) for x in ast.walk(size_)
                     if isinstance(x, ast.Call) and unparse(x.func) == "len"
                     and x.args]
             if not lens:
-                # the count held in a local: `nb = len(x)` ... `8 * nb`
-                d_ = astq._defs(mfn)
-                for x in ast.walk(n.args[0]):
-                    v_ = d_.get(x.id) if isinstance(x, ast.Name) else None
-                    if isinstance(v_, ast.Call) and unparse(
-                            v_.func) == "len" and v_.args:
-                        lens.append(unparse(v_.args[0]))
-            if not lens:
+                # a constant width is fine; a width taken from another
+                # received field (the announced bit count) need not match
+                # the bytes that follow
+                free = [x.id for x in ast.walk(n.args[0])
+                        if isinstance(x, ast.Name)]
+                if free:
+                    run.ob("R-FSM-ESC", "%s.%s#%s" % (
+                        P, mname, unparse(n)[:40]), False,
+                        "`%s` takes the frame width from `%s`, not from the "
+                        "number of bytes received (8 * len(%s)): a frame "
+                        "whose announced width disagrees raises ValueError "
+                        "out of data_received or is decoded at the wrong "
+                        "size" % (unparse(n)[:60], unparse(n.args[0]),
+                                  unparse(n.args[1])), where(mod, n))
                 continue          # fixed size
             nctor += 1
             # other spellings of the count: locals bound to len(<bytes>)
